@@ -5,7 +5,7 @@ import ast
 
 from ..model import AnalysisError, ClassInfo, Program
 from ..report import Run
-from ..skel import count_marker, field_class, recv_path, render, render_sites, renderable_classes, root_attr, skeletons
+from ..skel import count_marker, field_class, recv_path, render, render_sites, renderable_classes, root_attr, skeletons, node_child_formatted
 from ..symex import (Alt, CondI, Const, CtxV, EnumV, Evaluator, Hole, Inh, InhOr, JoinP, Lit, Obj, One, Opaque, Phi, Rep,
                      RepI, SlotP, Str, Sym, show, walk_parts)
 from .c08 import _root_self_attr, node_attrs
@@ -214,6 +214,8 @@ def check(program: Program, run: Run) -> None:
                 if any("hasattr" in show(cd, -20) and "get_sql" in show(cd, -20) and show(cd, -20).startswith("not") for cd in conds):
                     continue  # str() only for objects without get_sql
                 a = _root_self_attr(part.value)
+                if not in_rep and not node_child_formatted(program, c, a):
+                    continue  # decided exactly: with a Node of any kind in self.<a> the renderer goes through its get_sql(ctx)
                 where = f"{part.src[2]}:{part.src[1]}" if part.src else ""
                 run.ob("C04/R1 child node rendered through get_sql(ctx)", f"{c.qualname}:{a}", False, where=where)
                 run.finding(f"C04/ctx-bypass:{part.src[0] if part.src else c.qualname}:{a}",
